@@ -30,6 +30,7 @@ type Tier struct {
 	MaxSymLen int
 	Preempt   int
 	Seg       bool
+	SegCuts   int
 	MapPerm   bool
 	TimerRace bool
 	Budget    time.Duration // wall budget for exploration
@@ -148,6 +149,7 @@ func propMain(id string, args []string) int {
 		return 2
 	}
 	p.Segmentation = T.Seg
+	p.SegCuts = T.SegCuts
 	p.MapOrderPerm = T.MapPerm
 	p.TimerRace = T.TimerRace
 	if T.MaxSymLen > 0 {
